@@ -411,6 +411,7 @@ class Generator:
             fb.entry, fb.loops, fb.before, fb.after, fb.tail = [], {}, [], [], []
             fb.replace, fb.calls, fb.unsafe_stub = [], [], {}
             fb.panic_state = None
+            fb._dummy_body = True
             fb._is_free_copy = True
             n0 = len(self.fns)
             self.emit_fn_inner(fb)
@@ -444,9 +445,12 @@ class Generator:
         twin._free_name = spec.opts["free"]
         saved_out, saved_fns = self.out, self.fns
         self.out, self.fns = [], []
-        self.emit_fn_inner(twin)
-        lines, recs = self.out, self.fns
-        self.out, self.fns = saved_out, saved_fns
+        try:
+            self.emit_fn_inner(twin)
+            lines, recs = self.out, self.fns
+        finally:
+            # (an ExtractError in the twin must not leave the private buffer installed)
+            self.out, self.fns = saved_out, saved_fns
         rec = recs[0]
         rec["twin_of"] = "%s|%s|%s" % (spec.file, spec.container, spec.name)
         rec["free_name"] = spec.opts["free"]
@@ -491,6 +495,13 @@ class Generator:
             if it.body_open is not None and not spec.sig_only:
                 pass
             self.emit(";")
+            rec["gen_end"] = len(self.out)
+            self.fns.append(rec)
+            return
+        if getattr(spec, "_dummy_body", False):
+            # degraded (contract-only) copy: the edited body may name items that are not in the
+            # generated file; Verus ignores an external_body anyway
+            self.emit("{ unimplemented!() }")
             rec["gen_end"] = len(self.out)
             self.fns.append(rec)
             return
